@@ -142,3 +142,8 @@ func specRel(opts []layers.TCPOption, a int, o int, isn uint32) uint32 {
 //@ ensures[C10.send.wrap] ret0 != nil ==> noRepoErr(ret0)
 //@ lemma[C06.inject]      forall(b, 0, 4294967296, forall(a, 0, 256, forall(c, 0, 256, a != c ==> (b + a) % 4294967296 != (b + c) % 4294967296)))
 //@ modifies elems(s.sendTimes), ghost clock, ghost wrN, ghost wrClock
+
+//@ func newSackDriver
+//@ safety C19
+//@ ensures[C19.sack.table]  ret1 == nil ==> ret0 != nil && fresh(ret0) && len(ret0.sendTimes) == int(params.ParallelParams.MaxTTL)+1 && ret0.state == nil && ret0.params == params && ret0.localAddr == localAddr
+//@ ensures[C19.sack.zero]   ret1 == nil ==> forall(k, 0, len(ret0.sendTimes), ret0.sendTimes[k] == 0)
